@@ -42,6 +42,8 @@ pub struct NodeCfg {
     pub substream_open_timeout: Duration,
     /// "tcp" | "ws" | "quic"
     pub transport: String,
+    /// quinn idle timeout (litep2p takes it from the QUIC `connection_open_timeout`)
+    pub quic_idle: Duration,
 }
 
 impl NodeCfg {
@@ -56,6 +58,7 @@ impl NodeCfg {
             seed,
             substream_open_timeout: Duration::from_secs(5),
             transport: "tcp".into(),
+            quic_idle: Duration::from_secs(5),
         }
     }
 }
@@ -291,7 +294,7 @@ impl Node {
             // configured): 5 s lets a crashed remote be noticed well within the harness deadlines
             "quic" => b.with_quic(QuicConfig {
                 listen_addresses: vec!["/ip4/127.0.0.1/udp/0/quic-v1".parse().unwrap()],
-                connection_open_timeout: Duration::from_secs(5),
+                connection_open_timeout: cfg.quic_idle,
                 substream_open_timeout: cfg.substream_open_timeout,
             }),
             _ => b.with_tcp(TcpConfig {
